@@ -221,7 +221,7 @@ def build_units(tier: str) -> list[Unit]:
             tag = ",".join(f"{k}={v}" for k, v in alts.items())
             units.append(Unit(f"store/reply/{cname}/{tag}",
                               c11.insert_harness("response", cname, cls, alts),
-                              setup=_store_setup))
+                              setup=_store_setup, allow_empty=True))
     return units
 
 
